@@ -203,6 +203,21 @@ theorem mergeLinters_disjoint (rs : List PieceRule) (src : List Char) (toks : Li
     rw [h2, h1']
     exact haa.2
 
+/-- **`merge_linters!` of rules that return in-range lints**: returns, in range AND pairwise disjoint — `mergeLinters_disjoint`
+without its side hypothesis on the candidates (they come from the children, `collectE_mem`) -/
+theorem mergeLinters_wf_disjoint (rs : List PieceRule) (src : List Char) (toks : List Tok)
+    (h : ∀ r ∈ rs, RunsWF r src toks) :
+    ∃ ls, mergeLinters rs src toks = .ok ls ∧ (∀ l ∈ ls, l.span.start ≤ l.span.stop ∧ l.span.stop ≤ src.length) ∧
+      ls.Pairwise (fun a b => a.span.stop ≤ b.span.start) := by
+  obtain ⟨ls, e, hl⟩ := mergeLinters_spans_wf rs src toks h
+  refine ⟨ls, e, hl, mergeLinters_disjoint rs src toks ls e ?_⟩
+  intro cands hc c hcm
+  obtain ⟨r, hr, a, ha, hca⟩ := collectE_mem _ rs cands hc c hcm
+  obtain ⟨ls', e', hl'⟩ := h r hr
+  rw [e'] at ha
+  cases ha
+  exact (hl' c hca).1
+
 /-- two `MapPhraseLinter`s merged: `in tact` and `tact now` both claim `tact`; `remove_overlaps` keeps the first -/
 example : mergeLinters [ruleMapPhrase C12.env0 C12.intactPat [['i', 'n', 't', 'a', 'c', 't']],
       ruleMapPhrase C12.env0 (.seq (.cons (.leaf (.anyCap ['t', 'a', 'c', 't'])) (.cons (.leaf .whitespace) (.cons (.leaf (.anyCap ['n', 'o', 'w'])) .nil))))
@@ -227,5 +242,130 @@ example : InText ['#', ' ', 'i', 'n', ' ', 't', 'a', 'c', 't']
 example : ruleMapPhrase env0 intactPat [['i', 'n', 't', 'a', 'c', 't']] ['#', ' ', 'i', 'n', ' ', 't', 'a', 'c', 't']
       [⟨⟨2, 4⟩, .word⟩, ⟨⟨4, 5⟩, .space 1⟩, ⟨⟨5, 9⟩, .word⟩, ⟨⟨2, 2⟩, .paragraphBreak⟩] =
     .ok [⟨⟨2, 9⟩, [.replaceWith ['i', 'n', 't', 'a', 'c', 't']], 13, 0⟩] := by decide
+
+/-! ## non-vacuity, continued (w22 audit): every hypothesis-carrying theorem of this file at a concrete, non-trivial value -/
+
+/-- the in-text (indeed tiling) tokens of `We In  tact now.` (`C01.srcIntact`, `C01.toksIntact`) -/
+theorem inText_weIntact : InText C01.srcIntact C01.toksIntact :=
+  inText_of_tiles _ _ (by decide)
+
+/-- non-vacuity of `mapPhrase_spans_wf` / `mapPhrase_total`, applied: a plain tree on in-text tokens, and the value -/
+example : RunsWF (ruleMapPhrase env0 intactPat [['i', 'n', 't', 'a', 'c', 't']]) C01.srcIntact C01.toksIntact :=
+  mapPhrase_spans_wf env0 intactPat (by decide) _ _ _ inText_weIntact
+example : ruleMapPhrase env0 intactPat [['i', 'n', 't', 'a', 'c', 't']] C01.srcIntact C01.toksIntact =
+    .ok [⟨⟨3, 11⟩, [.replaceWith ['I', 'n', 't', 'a', 'c', 't']], 13, 0⟩] := by decide
+
+/-- non-vacuity of `mapPhrase_span_is_match`: its hypotheses at the three matched tokens `In  tact`, and the theorem applied -/
+example : spanOf ((C01.toksIntact.drop 2).take 3) = some ⟨3, 11⟩ ∧
+    ∃ txt, (⟨3, 11⟩ : Span).getContent C01.srcIntact = .ok txt ∧
+      [Sugg.replaceWith ['I', 'n', 't', 'a', 'c', 't']] = [['i', 'n', 't', 'a', 'c', 't']].map (fun f => .replaceWith (matchCase env0 f txt)) :=
+  mapPhrase_span_is_match env0 [['i', 'n', 't', 'a', 'c', 't']] C01.srcIntact ((C01.toksIntact.drop 2).take 3)
+    [⟨⟨3, 11⟩, [.replaceWith ['I', 'n', 't', 'a', 'c', 't']], 13, 0⟩] (by decide) _ (List.mem_singleton.mpr rfl)
+
+/-- non-vacuity of `phraseCorrection_spans_wf`: a row with two phrases (`in tact`, `we in`), applied, and the value -/
+example : exactPhrasesOf env0 [C01.phIntact, (['w', 'e', ' ', 'i', 'n'], [⟨⟨0, 2⟩, .word⟩, ⟨⟨2, 3⟩, .space 1⟩, ⟨⟨3, 5⟩, .word⟩])] =
+      some (.either (.cons intactPat (.cons (.seq (.cons (.leaf (.anyCap ['w', 'e'])) (.cons (.leaf .whitespace) (.cons (.leaf (.anyCap ['i', 'n'])) .nil)))) .nil))) ∧
+    RunsWF (ruleMapPhrase env0 (.either (.cons intactPat (.cons (.seq (.cons (.leaf (.anyCap ['w', 'e'])) (.cons (.leaf .whitespace) (.cons (.leaf (.anyCap ['i', 'n'])) .nil)))) .nil)))
+      [['x']]) C01.srcIntact C01.toksIntact ∧
+    ruleMapPhrase env0 (.either (.cons intactPat (.cons (.seq (.cons (.leaf (.anyCap ['w', 'e'])) (.cons (.leaf .whitespace) (.cons (.leaf (.anyCap ['i', 'n'])) .nil)))) .nil)))
+      [['x']] C01.srcIntact C01.toksIntact = .ok [⟨⟨0, 5⟩, [.replaceWith ['X']], 13, 0⟩] :=
+  ⟨rfl, phraseCorrection_spans_wf env0 [C01.phIntact, (['w', 'e', ' ', 'i', 'n'], [⟨⟨0, 2⟩, .word⟩, ⟨⟨2, 3⟩, .space 1⟩, ⟨⟨3, 5⟩, .word⟩])]
+    _ rfl _ _ _ inText_weIntact, by decide⟩
+
+/-- non-vacuity of `closedCompound_spans_wf` / `closedCompound_total`: the row `in tact` → `intact`, applied
+(the value is that of `ruleMapPhrase env0 intactPat`, computed above) -/
+example : ruleClosedCompound env0 C01.phIntact.1 C01.phIntact.2 ['i', 'n', 't', 'a', 'c', 't'] =
+      some (ruleMapPhrase env0 intactPat [['i', 'n', 't', 'a', 'c', 't']]) ∧
+    RunsWF (ruleMapPhrase env0 intactPat [['i', 'n', 't', 'a', 'c', 't']]) C01.srcIntact C01.toksIntact ∧
+    ∃ ls, ruleMapPhrase env0 intactPat [['i', 'n', 't', 'a', 'c', 't']] C01.srcIntact C01.toksIntact = .ok ls :=
+  ⟨rfl, closedCompound_spans_wf env0 C01.phIntact.1 C01.phIntact.2 ['i', 'n', 't', 'a', 'c', 't'] _ rfl _ _ inText_weIntact,
+    closedCompound_total env0 C01.phIntact.1 C01.phIntact.2 ['i', 'n', 't', 'a', 'c', 't'] _ rfl _ _ inText_weIntact⟩
+
+/-- non-vacuity of `phrase_prefix_stable`, applied: `in tact` matches 3 of the 6 tokens from `In` on, and again the first 3 alone -/
+example : intactPat.matcher env0 C01.srcIntact ((C01.toksIntact.drop 2).take 3) = .ok 3 :=
+  phrase_prefix_stable env0 C01.phIntact.1 C01.phIntact.2 intactPat rfl C01.srcIntact (C01.toksIntact.drop 2) 3 (by decide) (by decide)
+
+/-- non-vacuity of `properNounRule_spans_wf`, `properNoun_spans_wf`, `properNoun_total`: the entry with the one canonical
+version `In Tact`; its row is a phrase pattern; the theorems applied; and the value: the two-blank `In  tact` is flagged -/
+example : [((['I', 'n', ' ', 'T', 'a', 'c', 't'], [⟨⟨0, 2⟩, .word⟩, ⟨⟨2, 3⟩, .space 1⟩, ⟨⟨3, 7⟩, .word⟩]) : List Char × List Tok)].mapM
+      (fun d => pnRowOf env0 d.1 d.2) =
+      some [⟨.seq (.cons (.leaf (.anyCap ['I', 'n'])) (.cons (.leaf .whitespace) (.cons (.leaf (.anyCap ['T', 'a', 'c', 't'])) .nil))),
+        [['I', 'n'], [' '], ['T', 'a', 'c', 't']], ['I', 'n', ' ', 'T', 'a', 'c', 't']⟩] ∧
+    (∀ r ∈ [(⟨.seq (.cons (.leaf (.anyCap ['I', 'n'])) (.cons (.leaf .whitespace) (.cons (.leaf (.anyCap ['T', 'a', 'c', 't'])) .nil))),
+        [['I', 'n'], [' '], ['T', 'a', 'c', 't']], ['I', 'n', ' ', 'T', 'a', 'c', 't']⟩ : PNRow)], IsPhrasePat r.pat) ∧
+    RunsWF (ruleProperNoun env0 [⟨.seq (.cons (.leaf (.anyCap ['I', 'n'])) (.cons (.leaf .whitespace) (.cons (.leaf (.anyCap ['T', 'a', 'c', 't'])) .nil))),
+        [['I', 'n'], [' '], ['T', 'a', 'c', 't']], ['I', 'n', ' ', 'T', 'a', 'c', 't']⟩]) C01.srcIntact C01.toksIntact ∧
+    ruleProperNoun env0 [⟨.seq (.cons (.leaf (.anyCap ['I', 'n'])) (.cons (.leaf .whitespace) (.cons (.leaf (.anyCap ['T', 'a', 'c', 't'])) .nil))),
+        [['I', 'n'], [' '], ['T', 'a', 'c', 't']], ['I', 'n', ' ', 'T', 'a', 'c', 't']⟩] C01.srcIntact C01.toksIntact =
+      .ok [⟨⟨3, 11⟩, [.replaceWith ['I', 'n', ' ', 'T', 'a', 'c', 't']], 14, 0⟩] := by
+  have hrows : ∀ r ∈ [(⟨.seq (.cons (.leaf (.anyCap ['I', 'n'])) (.cons (.leaf .whitespace) (.cons (.leaf (.anyCap ['T', 'a', 'c', 't'])) .nil))),
+        [['I', 'n'], [' '], ['T', 'a', 'c', 't']], ['I', 'n', ' ', 'T', 'a', 'c', 't']⟩ : PNRow)], IsPhrasePat r.pat := by
+    intro r hr
+    rw [List.mem_singleton] at hr
+    subst hr
+    exact exactPhrase_isPhrase env0 ['I', 'n', ' ', 'T', 'a', 'c', 't'] [⟨⟨0, 2⟩, .word⟩, ⟨⟨2, 3⟩, .space 1⟩, ⟨⟨3, 7⟩, .word⟩] _ rfl
+  refine ⟨rfl, hrows, ?_, by decide⟩
+  have h1 := properNounRule_spans_wf env0 [(['I', 'n', ' ', 'T', 'a', 'c', 't'], [⟨⟨0, 2⟩, .word⟩, ⟨⟨2, 3⟩, .space 1⟩, ⟨⟨3, 7⟩, .word⟩])]
+    _ rfl C01.srcIntact C01.toksIntact inText_weIntact
+  have h2 := properNoun_spans_wf env0 _ hrows C01.srcIntact C01.toksIntact inText_weIntact
+  have _h3 := properNoun_total env0 _ hrows C01.srcIntact C01.toksIntact inText_weIntact
+  exact h2
+
+/-- non-vacuity of `mergeLinters_spans_wf` / `_total` / `_disjoint` / `_wf_disjoint`, applied to the two `MapPhraseLinter`s of
+the `example` above (their results overlap in `tact`; the value is computed there) -/
+example : ∃ ls, mergeLinters [ruleMapPhrase env0 intactPat [['i', 'n', 't', 'a', 'c', 't']],
+      ruleMapPhrase env0 (.seq (.cons (.leaf (.anyCap ['t', 'a', 'c', 't'])) (.cons (.leaf .whitespace) (.cons (.leaf (.anyCap ['n', 'o', 'w'])) .nil))))
+        [['n', 'o', 'w']]] C01.srcIntact C01.toksIntact = .ok ls ∧
+    (∀ l ∈ ls, l.span.start ≤ l.span.stop ∧ l.span.stop ≤ C01.srcIntact.length) ∧
+    ls.Pairwise (fun a b => a.span.stop ≤ b.span.start) := by
+  apply mergeLinters_wf_disjoint
+  intro r hr
+  simp only [List.mem_cons, List.mem_nil_iff, or_false] at hr
+  rcases hr with rfl | rfl
+  · exact mapPhrase_spans_wf env0 _ (by decide) _ _ _ inText_weIntact
+  · exact mapPhrase_spans_wf env0 _ (by decide) _ _ _ inText_weIntact
+
+/-- **non-vacuity of `mapPhrase_spans_wf_full` / `mapPhrase_total_full`** — `DictOK`, `CanonOK`, `WordsShort`, `Tiles`, `ShortWords`
+TOGETHER and none of them trivially: a dictionary that knows `Intact` (a noun) and the proper noun `tact` (canonical `Tact`), a
+NON-plain tree (`SplitCompoundWord`, `IsNotTitleCase` around `in tact`, `SimilarToPhrase` of `im tact`), the tiling tokens of
+`We In  tact now.`; the linter flags `In  tact`. (`C12.env0` knows no word: there `DictOK` and `CanonOK` hold for want of any entry.) -/
+theorem mapPhrase_full_witness : ∃ (env : Env) (p : RPat) (forms : List (List Char)) (src : List Char) (toks : List Tok),
+    DictOK env ∧ CanonOK env ∧ WordsShort env p ∧ Tiles toks 0 src.length ∧ ShortWords env src toks ∧ p.plain = false ∧
+    ruleMapPhrase env p forms src toks = .ok [⟨⟨3, 11⟩, [.replaceWith ['I', 'n', 't', 'a', 'c', 't']], 13, 0⟩] := by
+  refine ⟨{ env0 with
+      wordFlags := fun w => if w = ['I', 'n', 't', 'a', 'c', 't'] then 33024 else if w = ['t', 'a', 'c', 't'] then 32800 else 0
+      canonical := fun w => if w = ['I', 'n', 't', 'a', 'c', 't'] then some ['I', 'n', 't', 'a', 'c', 't']
+        else if w = ['t', 'a', 'c', 't'] then some ['T', 'a', 'c', 't'] else none },
+    .either (.cons (.leaf (.splitCompound 8))
+      (.cons (.notTitleCase (.seq (.cons (.leaf (.anyCap ['i', 'n'])) (.cons (.leaf .whitespace) (.cons (.leaf (.anyCap ['t', 'a', 'c', 't'])) .nil)))))
+      (.cons (.similar (.seq (.cons (.leaf (.anyCap ['i', 'm'])) (.cons (.leaf .whitespace) (.cons (.leaf (.anyCap ['t', 'a', 'c', 't'])) .nil))))
+        (.seq (.cons (.leaf (.withinEdit ['i', 'm'] 1)) (.cons (.leaf .whitespace) (.cons (.leaf (.withinEdit ['t', 'a', 'c', 't'] 1)) .nil))))) .nil))),
+    [['i', 'n', 't', 'a', 'c', 't']], C01.srcIntact, C01.toksIntact, ?_, ?_, ?_, ?_, ?_, ?_, ?_⟩
+  · intro w h
+    dsimp only at h ⊢
+    split
+    · simp
+    · split
+      · simp
+      · rename_i h1 h2; simp [h1, h2] at h; revert h; decide
+  · intro w c h
+    dsimp only at h
+    split at h
+    · cases h; subst_vars; decide
+    · split at h
+      · cases h; subst_vars; decide
+      · cases h
+  · simp only [WordsShort, WordsShortL, Leaf.wordsShort, and_true, true_and]
+    decide
+  · decide
+  · unfold ShortWords; decide
+  all_goals decide
+
+/-- the two theorems applied to that value -/
+example : ∃ (env : Env) (p : RPat) (forms : List (List Char)) (src : List Char) (toks : List Tok), p.plain = false ∧
+    RunsWF (ruleMapPhrase env p forms) src toks ∧ ∃ ls, ruleMapPhrase env p forms src toks = .ok ls := by
+  obtain ⟨env, p, forms, src, toks, hd, hc, hw, ht, hs, hp, _⟩ := mapPhrase_full_witness
+  exact ⟨env, p, forms, src, toks, hp, mapPhrase_spans_wf_full env hd hc p hw forms src toks ht hs,
+    mapPhrase_total_full env hd hc p hw forms src toks ht hs⟩
 
 end Harper.C03
